@@ -400,6 +400,8 @@ def run(ctx: Ctx) -> Outcome:
                             eps = entry_points(model, tgt, rng)
                             ep = next((e for e in eps if e[0] == "delattr-all"), ep)
                             out.hit("prior-edit.spare-member-first")
+                            if acc is not None and acc.drv is not None:
+                                acc.resync(model)   # the prior edit was made behind the accessor tie's back: transfer the state again
                     except Exception:  # noqa: BLE001
                         pass
             name, fn, rel = ep[:3]
